@@ -347,7 +347,11 @@ func (g *c15Gen) client(slot, pi, di int) []Action {
 	case 7: // the proxy is killed while data is in flight
 		ad, ck := adata(), g.checkin(di)
 		ad.T, ck.T = "g", "g"
-		if r.Intn(2) == 0 {
+		if r.Intn(3) == 0 {
+			// ... and while somebody else is just connecting to it (and leaves again at once)
+			kn := Action{Kind: "c-knock", C: pi, B: di, D: r.Intn(1000), T: "g"}
+			s = append(s, Action{Kind: "par", A: 4}, ad, kn, Action{Kind: "socks-kill", A: r.Intn(g.nops), B: di, C: pi, T: "g"}, ck)
+		} else if r.Intn(2) == 0 {
 			s = append(s, Action{Kind: "par", A: 3}, ad, Action{Kind: "socks-kill", A: r.Intn(g.nops), B: di, C: pi, T: "g"}, ck)
 		} else {
 			s = append(s, Action{Kind: "par", A: 3}, ad, ck, Action{Kind: "socks-kill", A: r.Intn(g.nops), B: di, C: pi, T: "g"})
@@ -891,6 +895,12 @@ func (st *c15State) inject(a Action) {
 		}
 		st.cli[a.A] = &c15Cli{slot: a.A, conn: conn, port: port, di: di}
 		res.FP("c-open")
+	case "c-knock":
+		// a connection that comes and goes (a port scan, a client that changed its mind)
+		if conn := w.Sim.DialIn(c15Ports[a.C%len(c15Ports)], fmt.Sprintf("198.51.100.99:%d", 7000+a.D%1000)); conn != nil {
+			conn.Reset()
+			res.Probe("connections-that-come-and-go")
+		}
 	case "c-greet":
 		c := st.cli[a.A]
 		if c == nil || c.state != c15Open || c.clientClosed || len(a.X) == 0 {
